@@ -33,17 +33,22 @@ Lemma capacity_exact_inv cf s :
   res_len s + st_removed s = st_created s /\
   res_len s <= cap cf /\
   (res_len s < cap cf ->
-     exists k c', ctl_try_reserve (st_ctl s) = Ok (Reserved k c') /\
+     exists k c', res_try_reserve (st_ctl s) = Ok (Reserved k c') /\
                   kidx k < cap cf /\ cfree (cs s (kidx k)) = true) /\
-  (res_len s = cap cf -> ctl_try_reserve (st_ctl s) = Ok ArenaFull).
+  (res_len s = cap cf -> res_try_reserve (st_ctl s) = Ok ArenaFull).
 Proof.
   intro I. pose proof (len_owned _ _ I) as Hlen.
-  destruct (i_free _ _ I) as (fl & Hch & Hnd & Hfl).
-  pose proof (free_list_length _ _ _ I Hnd Hfl) as Hfll.
+  pose proof (owned_bound _ _ I) as Hob.
   split; [apply (i_clen _ _ I)|].
   split; [rewrite Hlen; unfold owned, nq_idx; rewrite !app_length, map_length; lia|].
   split; [rewrite Hlen, (i_counts _ _ I); lia|].
-  split; [lia|]. split.
+  split; [lia|].
+  unfold res_try_reserve, ctl_capacity. rewrite (i_clen _ _ I).
+  destruct (Nat.eqb_spec (cap cf) 0) as [Ez|Ez].
+  { split; [intro; lia|auto]. }
+  destruct (i_free _ _ I ltac:(lia)) as (fl & Hch & Hnd & Hfl).
+  pose proof (free_list_length _ _ _ I Hnd Hfl) as Hfll.
+  split.
   - intro Hlt. destruct fl as [|h r]; cbn [length] in Hfll; [lia|].
     cbn [chain] in Hch. destruct Hch as (Eh & Hh & _).
     unfold ctl_try_reserve. rewrite Eh, (nth_error_lt _ _ dC) by auto.
@@ -108,7 +113,7 @@ Proof.
     assert (E : st_ar s' = st_ar s /\ st_newq s' = st_newq s /\ st_a s' = st_a s /\
                 st_callbacks s' = st_callbacks s).
     { unfold g_reserve in H. destruct (st_g s); try (inversion H; subst; auto; fail).
-      destruct (ctl_try_reserve (st_ctl s)) as [[|]| |]; cbn in H; inversion H; subst; auto.
+      destruct (res_try_reserve (st_ctl s)) as [[|]| |]; cbn in H; inversion H; subst; auto.
       destruct (prebuild cf); auto. }
     destruct E as (E1 & E2 & E3 & E4). right. rewrite E2, E3, E4.
     destruct T as [T|[T|T]]; [tauto| |]; [right; left|right; right]; intuition eauto using live_frame.
@@ -157,10 +162,11 @@ Proof.
     + destruct (a_remove_spec _ _ _ _ I Ea Ef) as (Hi0 & p0 & Hp0 & Hd0 & E).
       rewrite E in H. inversion H; subst; clear H.
       (* the unused-ring is not full while something is occupied: the queue bound *)
-      assert (Hfull : selfref cf && ring_is_full (cap cf) (st_unused s) = false).
+      assert (Hfull : selfref cf && ring_is_full (unused_cap cf) (st_unused s) = false).
       { destruct Hp0 as [Hocc0 _]. unfold QInv in Q.
         assert (1 <= length (aorder (st_ar s))) by (destruct (aorder (st_ar s)); [destruct Hocc0|cbn; lia]).
-        unfold ring_is_full. replace (cap cf <=? length (st_unused s)) with false; [apply andb_false_r|].
+        unfold ring_is_full, unused_cap.
+        replace (S (cap cf) <=? length (st_unused s)) with false; [apply andb_false_r|].
         symmetry. apply Nat.leb_gt. lia. }
       rewrite Hfull.
       pose proof (i_cur _ _ I _ Ea) as [NDcur _]. cbn [map] in NDcur.
@@ -199,7 +205,7 @@ Proof.
     assert (E : st_ar s' = st_ar s /\ st_newq s' = st_newq s /\ st_a s' = st_a s /\
                 st_callbacks s' = st_callbacks s).
     { unfold a_push in H. destruct (st_inflight s); [|inversion H; subst; auto].
-      destruct (ring_push (cap cf) (st_unused s) n0); inversion H; subst; auto. }
+      destruct (ring_push (unused_cap cf) (st_unused s) n0); inversion H; subst; auto. }
     destruct E as (E1 & E2 & E3 & E4). right. rewrite E2, E3, E4.
     destruct T as [T|[T|T]]; [tauto| |]; [right; left|right; right]; intuition eauto using live_frame.
   - (* A_add *)
@@ -228,10 +234,10 @@ Proof.
 Qed.
 
 Lemma track_run cf n k p sched s s' :
-  Inv cf s -> QInv cf s -> race_free cf sched s -> track cf n k p s ->
+  Inv cf s -> QInv cf s -> track cf n k p s ->
   run cf sched s = Ok s' -> track cf n k p s'.
 Proof.
-  intros I Q RF T H. eapply (run_preserves_q cf (track cf n k p)); eauto.
+  intros I Q T H. eapply (run_preserves_q cf (track cf n k p)); eauto.
   intros l s0 s1 I0 Q0 T0 H0. eapply track_step; eauto.
 Qed.
 
@@ -240,45 +246,57 @@ Proof. apply existsb_eqb_In. Qed.
 
 Lemma prompt_removal_proof :
   forall cf sched1 s1 k p sched2 s2,
-    1 <= cap cf ->
-    race_free cf sched1 (init cf) -> run cf sched1 (init cf) = Ok s1 ->
+    run cf sched1 (init cf) = Ok s1 ->
     st_a s1 = AIdle -> resolve s1 k = Ok (Some p) -> In p (st_marked s1) ->
-    race_free cf sched2 s1 -> run cf sched2 s1 = Ok s2 -> st_callbacks s1 < st_callbacks s2 ->
+    run cf sched2 s1 = Ok s2 -> st_callbacks s1 < st_callbacks s2 ->
     resolve s2 k = Ok None /\ gone s2 k.
 Proof.
-  intros cf sched1 s1 k p sched2 s2 Hc RF1 H1 Ha Hr Hm RF2 H2 Hcb.
-  destruct (res_invariant_proof cf sched1 Hc RF1) as (s1' & E & I1 & Q1). rewrite H1 in E. inversion E; subst s1'.
-  destruct (run_ok cf sched2 s1 I1 Q1 RF2) as (s2' & E2 & I2 & Q2). rewrite H2 in E2. inversion E2; subst s2'.
+  intros cf sched1 s1 k p sched2 s2 H1 Ha Hr Hm H2 Hcb.
+  destruct (reach _ _ _ H1) as [I1 Q1].
+  pose proof (run_inv _ _ _ _ I1 H2) as I2.
   apply (resolve_live _ _ _ _ I1) in Hr as [Hi Hl].
   assert (T : track cf (st_callbacks s1) k p s1).
   { split; [now apply is_marked_In|]. split; auto. right. right. right. auto. }
-  pose proof (track_run _ _ _ _ _ _ _ I1 Q1 RF2 T H2) as (_ & _ & T2).
+  pose proof (track_run _ _ _ _ _ _ _ I1 Q1 T H2) as (_ & _ & T2).
   assert (G : gone s2 k) by (destruct T2 as [G|[[? _]|[[? _]|[? _]]]]; auto; lia).
   split; auto. eapply gone_resolve; eauto.
 Qed.
 
 Lemma prompt_removal_queued_proof :
   forall cf sched1 s1 k p sched2 s2,
-    1 <= cap cf ->
-    race_free cf sched1 (init cf) -> run cf sched1 (init cf) = Ok s1 ->
+    run cf sched1 (init cf) = Ok s1 ->
     In (k, p) (st_newq s1) -> In p (st_marked s1) ->
-    race_free cf sched2 s1 -> run cf sched2 s1 = Ok s2 ->
+    run cf sched2 s1 = Ok s2 ->
     (st_callbacks s1 + 1 <= st_callbacks s2 -> resolve s2 k = Ok (Some p) \/ gone s2 k) /\
     (st_callbacks s1 + 2 <= st_callbacks s2 -> resolve s2 k = Ok None /\ gone s2 k).
 Proof.
-  intros cf sched1 s1 k p sched2 s2 Hc RF1 H1 Hq Hm RF2 H2.
-  destruct (res_invariant_proof cf sched1 Hc RF1) as (s1' & E & I1 & Q1). rewrite H1 in E. inversion E; subst s1'.
-  destruct (run_ok cf sched2 s1 I1 Q1 RF2) as (s2' & E2 & I2 & Q2). rewrite H2 in E2. inversion E2; subst s2'.
+  intros cf sched1 s1 k p sched2 s2 H1 Hq Hm H2.
+  destruct (reach _ _ _ H1) as [I1 Q1].
+  pose proof (run_inv _ _ _ _ I1 H2) as I2.
   assert (Hi : kidx k < cap cf).
   { apply (i_nonfree _ _ I1). unfold owned. rewrite !in_app_iff. right. left.
     unfold nq_idx. apply in_map_iff. now exists (k, p). }
   assert (T : track cf (st_callbacks s1 + 1) k p s1).
   { split; [now apply is_marked_In|]. split; auto. }
-  pose proof (track_run _ _ _ _ _ _ _ I1 Q1 RF2 T H2) as (_ & _ & T2). split.
+  pose proof (track_run _ _ _ _ _ _ _ I1 Q1 T H2) as (_ & _ & T2). split.
   - intro Hcb. destruct T2 as [G|[[? _]|[[? _]|(_ & Hl & _)]]]; auto; try lia.
     left. apply (resolve_live _ _ _ _ I2). auto.
   - intro Hcb. assert (G : gone s2 k) by (destruct T2 as [G|[[? _]|[[? _]|[? _]]]]; auto; lia).
     split; auto. eapply gone_resolve; eauto.
+Qed.
+
+(** the [is_full] guard of [remove_unused] never cuts a removal pass short: whenever the audio thread
+    is about to inspect a key, the unused-ring has room *)
+Lemma is_full_guard_never_fires_proof :
+  forall cf sched s k rest,
+    run cf sched (init cf) = Ok s -> st_a s = ARemoving (k :: rest) ->
+    ring_is_full (unused_cap cf) (st_unused s) = false.
+Proof.
+  intros cf sched s k rest H Ea. destruct (reach _ _ _ H) as [I Q].
+  pose proof (i_cur _ _ I _ Ea) as [_ Hcur]. destruct (Hcur k (or_introl eq_refl)) as [Hocc _].
+  unfold QInv in Q.
+  assert (1 <= length (aorder (st_ar s))) by (destruct (aorder (st_ar s)); [destruct Hocc|cbn; lia]).
+  unfold ring_is_full, unused_cap. apply Nat.leb_gt. lia.
 Qed.
 
 (** ** where payloads are destroyed *)
@@ -295,9 +313,9 @@ Proof.
       try (unfold a_remove in H; rewrite Ea, ?Ef in H; inversion H; subst; auto; fail).
     destruct (a_remove_spec _ _ _ _ I Ea Ef) as (_ & p & _ & _ & E). rewrite E in H.
     inversion H; subst.
-    destruct (selfref cf && ring_is_full (cap cf) (st_unused s)); auto. destruct (is_marked s p); auto.
+    destruct (selfref cf && ring_is_full (unused_cap cf) (st_unused s)); auto. destruct (is_marked s p); auto.
   - unfold a_push in H. destruct (st_inflight s); [|inversion H; subst; auto].
-    destruct (ring_push (cap cf) (st_unused s) n); inversion H; subst; auto.
+    destruct (ring_push (unused_cap cf) (st_unused s) n); inversion H; subst; auto.
   - destruct (st_a s) eqn:Ea;
       try (unfold a_add in H; rewrite Ea in H; inversion H; subst; auto; fail).
     destruct (st_newq s) as [|[k p] rest] eqn:Eq.
@@ -308,7 +326,7 @@ Qed.
 
 Lemma destroyed_on_caller_proof :
   forall cf sched s,
-    1 <= cap cf -> run cf sched (init cf) = Ok s ->
+    run cf sched (init cf) = Ok s ->
     (forall p t, In (p, t) (st_destroyed s) -> t = Gameplay) /\
     NoDup (map fst (st_destroyed s)) /\
     Permutation (seq 0 (st_next s))
@@ -317,8 +335,8 @@ Lemma destroyed_on_caller_proof :
     (forall l s', thread_of l = Audio -> step cf l s = Ok s' ->
                   st_destroyed s' = st_destroyed s /\ st_next s' = st_next s).
 Proof.
-  intros cf sched s Hc H.
-  pose proof (res_invariant_core_proof cf sched s Hc H) as I.
+  intros cf sched s H.
+  destruct (reach _ _ _ H) as [I _].
   split; [apply (i_destroyed _ _ I)|]. split; [|split; [apply (i_cons _ _ I)|]].
   - pose proof (i_cons _ _ I) as P.
     pose proof (Permutation_NoDup P (seq_NoDup _ _)) as ND.
@@ -331,16 +349,16 @@ Qed.
 
 Lemma no_stale_ids_proof :
   forall cf sched s,
-    1 <= cap cf -> run cf sched (init cf) = Ok s ->
+    run cf sched (init cf) = Ok s ->
     (forall k p, resolve s k = Ok (Some p) -> In (p, k) (st_log s)) /\
     (forall p p' k, In (p, k) (st_log s) -> In (p', k) (st_log s) -> p = p') /\
     (forall k, kidx k < cap cf -> gone s k ->
                forall sched2 s2, run cf sched2 s = Ok s2 -> resolve s2 k = Ok None /\ gone s2 k) /\
     (forall k p, In (p, k) (st_log s) -> resolve s k = Ok None -> ~ In (k, p) (st_newq s) -> gone s k) /\
-    (forall k c', ctl_try_reserve (st_ctl s) = Ok (Reserved k c') -> forall p, ~ In (p, k) (st_log s)).
+    (forall k c', res_try_reserve (st_ctl s) = Ok (Reserved k c') -> forall p, ~ In (p, k) (st_log s)).
 Proof.
-  intros cf sched s Hc H.
-  pose proof (res_invariant_core_proof cf sched s Hc H) as I.
+  intros cf sched s H.
+  destruct (reach _ _ _ H) as [I _].
   repeat split.
   - intros k p Hr. apply (resolve_live _ _ _ _ I) in Hr as (Hi & [_ Hg] & Hd).
     pose proof (i_ar_log _ _ I _ _ Hi Hd) as Hin. rewrite <- Hg in Hin. now destruct k.
@@ -364,7 +382,9 @@ Proof.
       - rewrite (i_gen _ _ I); auto. }
     congruence.
   - intros k c' Hres p Hin.
-    destruct (i_free _ _ I) as (fl & Hch & _ & Hfl). unfold ctl_try_reserve in Hres.
+    unfold res_try_reserve, ctl_capacity in Hres. rewrite (i_clen _ _ I) in Hres.
+    destruct (Nat.eqb_spec (cap cf) 0) as [Ez|Ez]; [discriminate|].
+    destruct (i_free _ _ I ltac:(lia)) as (fl & Hch & _ & Hfl). unfold ctl_try_reserve in Hres.
     destruct fl as [|h r]; cbn [chain] in Hch; [rewrite Hch in Hres; discriminate|].
     destruct Hch as (Eh & Hh & _). rewrite Eh, (nth_error_lt _ _ dC) in Hres by auto.
     inversion Hres; subst; clear Hres.
@@ -382,18 +402,17 @@ Qed.
 (** ** capacity: the statement over runs *)
 Lemma capacity_exact_proof :
   forall cf sched s,
-    1 <= cap cf -> run cf sched (init cf) = Ok s ->
+    run cf sched (init cf) = Ok s ->
     res_capacity s = cap cf /\
     res_len s = length (aorder (st_ar s)) + length (st_newq s) + length (gres (st_g s)) /\
     res_len s + st_removed s = st_created s /\
     res_len s <= cap cf /\
     (res_len s < cap cf ->
-       exists k c', ctl_try_reserve (st_ctl s) = Ok (Reserved k c') /\
+       exists k c', res_try_reserve (st_ctl s) = Ok (Reserved k c') /\
                     kidx k < cap cf /\ cfree (cs s (kidx k)) = true) /\
-    (res_len s = cap cf -> ctl_try_reserve (st_ctl s) = Ok ArenaFull).
+    (res_len s = cap cf -> res_try_reserve (st_ctl s) = Ok ArenaFull).
 Proof.
-  intros cf sched s Hc H.
-  apply capacity_exact_inv. eapply res_invariant_core_proof; eauto.
+  intros cf sched s H. apply capacity_exact_inv. now destruct (reach _ _ _ H).
 Qed.
 
 (** ** non-vacuity: concrete reachable states that meet the hypotheses *)
@@ -425,73 +444,47 @@ Lemma ex_reuse :
             gone s (mkKey 0 0) /\ resolve s (mkKey 0 0) = Ok None /\
             resolve s (mkKey 0 1) = Ok (Some 2) /\ resolve s (mkKey 1 0) = Ok (Some 1) /\
             st_destroyed s = [(0, Gameplay)] /\ res_len s = 2 /\
-            ctl_try_reserve (st_ctl s) = Ok ArenaFull.
+            res_try_reserve (st_ctl s) = Ok ArenaFull.
 Proof. eexists. split; [vm_compute; reflexivity|]. vm_compute. repeat split; auto. Qed.
 
-(** ** an executable check of race-freedom (used for the examples) *)
-Definition racyb (l : label) (s : state) : bool :=
-  match l, st_g s, st_unused s, st_inflight s with
-  | G_drain_done, GReserved _, [], Some _ => true
-  | _, _, _, _ => false
-  end.
-Fixpoint race_freeb (cf : cfg) (sched : list label) (s : state) : bool :=
-  match sched with
-  | [] => true
-  | l :: rest => negb (racyb l s) &&
-                 match step cf l s with Ok s' => race_freeb cf rest s' | _ => true end
-  end.
+(** ** regression examples: the witness schedules of the repaired findings *)
 
-Lemma race_freeb_sound cf sched s : race_freeb cf sched s = true -> race_free cf sched s.
-Proof.
-  revert s. induction sched as [|l rest IH]; intros s H; cbn [race_freeb race_free] in *; auto.
-  apply andb_true_iff in H as [H1 H2]. split.
-  - intros (-> & (k & Eg) & Eu & Ef). unfold racyb in H1. rewrite Eg, Eu in H1.
-    destruct (st_inflight s); [discriminate|congruence].
-  - intros s' E. rewrite E in H2. auto.
-Qed.
-
-Lemma ex_present_rf : race_free ex_cf ex_sched_present (init ex_cf).
-Proof. apply race_freeb_sound. vm_compute. reflexivity. Qed.
-Lemma ex_queued_rf : race_free ex_cf ex_sched_queued (init ex_cf).
-Proof. apply race_freeb_sound. vm_compute. reflexivity. Qed.
-Lemma ex_reuse_rf : race_free ex_cf ex_sched_reuse (init ex_cf).
-Proof. apply race_freeb_sound. vm_compute. reflexivity. Qed.
-
-(** ** finding F22: the race refutes the unguarded statements *)
-
-(** capacity 1: create 0; callback; drop 0; the next callback removes 0 from the arena (slot free,
-    payload in flight) — the gameplay thread now runs a whole create (reserve the freed slot, drain:
-    empty, push) — the callback pushes 0 into the unused-ring and inserts 1; drop 1; the next
-    callback removes 1 and pushes it: the ring (capacity 1) still holds 0 *)
-Definition f22_prefix : list label :=
+(** F27 (capacity 1): create 0; callback; drop 0; the next callback removes 0 from the arena (slot
+    free, payload in flight) — the gameplay thread now runs a whole create (reserve the freed slot,
+    drain: empty, push) — the callback pushes 0 into the unused-ring and inserts 1; drop 1; the next
+    callback removes 1 and pushes it.  With a ring of [capacity] slots that push panicked
+    (ResourceStorage) or the removal pass gave up for good (SelfReferentialResourceStorage). *)
+Definition f27_prefix : list label :=
   [G_reserve; G_drain_done; G_push; A_start; A_remove; A_push; A_add; A_add; G_mark 0;
    A_start; A_remove; G_reserve; G_drain_done; G_push; A_push; A_remove; A_push; A_add; A_add;
    G_mark 1].
-Definition f22_sched : list label := f22_prefix ++ [A_start; A_remove; A_push].
+Definition f27_callback : list label := [A_start; A_remove; A_push; A_remove; A_add; A_add].
 
-Lemma unused_full_refuted_proof :
-  run (mkCfg false true 1) f22_sched (init (mkCfg false true 1)) = Panic QueueFull /\
-  ~ race_free (mkCfg false true 1) f22_sched (init (mkCfg false true 1)).
+Lemma f27_regression_proof :
+  forall sr pb : bool,
+    let cf := mkCfg sr pb 1 in
+    exists s1 s2,
+      run cf f27_prefix (init cf) = Ok s1 /\ st_a s1 = AIdle /\
+      resolve s1 (mkKey 0 1) = Ok (Some 1) /\ In 1 (st_marked s1) /\ st_unused s1 = [0] /\
+      run cf f27_callback s1 = Ok s2 /\
+      st_callbacks s1 < st_callbacks s2 /\ st_a s2 = AIdle /\
+      resolve s2 (mkKey 0 1) = Ok None /\ st_unused s2 = [0; 1] /\ st_destroyed s2 = [] /\
+      res_len s2 = 0.
 Proof.
-  assert (H : run (mkCfg false true 1) f22_sched (init (mkCfg false true 1)) = Panic QueueFull)
-    by (vm_compute; reflexivity).
-  split; auto. intro RF.
-  destruct (res_invariant_proof (mkCfg false true 1) f22_sched (le_n 1) RF) as (s & E & _).
-  congruence.
+  intros [|] [|]; cbv zeta; eexists; eexists;
+    (split; [vm_compute; reflexivity|]); vm_compute; repeat split; auto.
 Qed.
 
-(** the self-referential storage does not panic in that situation: it stops removing; the marked
-    resource stays (until some later create drains the ring) *)
-Lemma prompt_removal_refuted_proof :
-  let cf := mkCfg true false 1 in
-  exists s1 s2,
-    run cf f22_prefix (init cf) = Ok s1 /\ st_a s1 = AIdle /\
-    resolve s1 (mkKey 0 1) = Ok (Some 1) /\ In 1 (st_marked s1) /\
-    run cf [A_start; A_remove; A_push; A_add; A_add] s1 = Ok s2 /\
-    st_callbacks s1 < st_callbacks s2 /\ st_a s2 = AIdle /\
-    resolve s2 (mkKey 0 1) = Ok (Some 1).
+(** F2 (capacity 0): the create path answers with the limit error; a payload that was already
+    built is dropped by the caller *)
+Lemma capacity_zero_regression_proof :
+  forall sr pb : bool,
+    let cf := mkCfg sr pb 0 in
+    res_try_reserve (st_ctl (init cf)) = Ok ArenaFull /\
+    exists s, run cf [G_reserve; G_drain_done; G_push; A_start; A_remove; A_add; A_add] (init cf) = Ok s /\
+              st_g s = GIdle /\ res_len s = 0 /\ st_created s = 0 /\
+              st_destroyed s = (if pb then [(0, Gameplay)] else []).
 Proof.
-  cbv zeta. eexists. eexists. split; [vm_compute; reflexivity|].
-  split; [reflexivity|]. split; [reflexivity|]. split; [cbn; auto|].
-  split; [vm_compute; reflexivity|]. vm_compute. repeat split; auto.
+  intros [|] [|]; cbv zeta; (split; [vm_compute; reflexivity|]); eexists;
+    (split; [vm_compute; reflexivity|]); vm_compute; auto.
 Qed.
